@@ -20,14 +20,16 @@ META = {
         "key with positive weight (= all seeds), each leaf's outcome (complete / caught failure / pruned) is a symbolic function of the "
         "leaf, and the run is split into several optimize() calls at symbolic points with a fresh sampler object (resume). Asserted on "
         "every path: when optimize() returns, the multiset of evaluated parameter combinations equals the set of leaves (each exactly "
-        "once) and the loop stopped by itself. NOTE: every fork here is a finite structural choice (shape, rng draw, outcome, split point); "
+        "once) and the loop stopped by itself. bruteforce-early-failure adds a transient failure before a trial's last suggest call (two known "
+        "findings are re-derived there). NOTE: every fork here is a finite structural choice (shape, rng draw, outcome, split point); "
         "no numeric input is symbolic, so the z3 solver has nothing to decide - this is an exhaustive bounded case split performed by the "
         "symbolic executor's path enumerator over the real code, reported at level 'exploration' (exhaustive within the bounds)."
     ),
     "assumptions": ["sampler RNG replaced by a stub honouring the contract of RandomState.choice (element with p>0)",
-                    "objectives are deterministic functions of the parameters",
+                    "objectives are deterministic functions of the parameters (except in bruteforce-early-failure, where one trial of the run, chosen "
+                    "by number, fails before it has drawn all its parameters)",
                     "interruptions lie strictly inside the run (calling optimize again after the sampler stopped the study is a fresh run)"],
-    "outside": ["n_jobs>1 / parallel workers (avoid_premature_stop)", "stateful objectives", "spaces beyond the size bound"],
+    "outside": ["n_jobs>1 / parallel workers", "stateful objectives", "spaces beyond the size bound"],
 }
 
 
@@ -124,9 +126,21 @@ def leaves(node, prefix=()):
     return out
 
 
-def run_program(trial, node):
+class Boom(Exception):
+    """the objective's own failure (caught by optimize); anything else that escapes comes from the sampler"""
+
+
+def depth_of(node):
+    if node is None:
+        return 0
+    return 1 + max(depth_of(child_of(node, v)) for v in values_of(node))
+
+
+def run_program(trial, node, fail_after=None):
     path = ()
     while node is not None:
+        if fail_after is not None and len(path) == fail_after:
+            raise Boom(f"objective fails after {fail_after} suggest calls, before its next parameter")
         name, kind, spec, _ = node
         if kind == "int":
             v = trial.suggest_int(name, spec[0], spec[1], step=spec[2])
@@ -140,7 +154,7 @@ def run_program(trial, node):
     return path
 
 
-def make_bruteforce_body(shape_names, max_splits, outcomes=("complete", "fail", "pruned")):
+def make_bruteforce_body(shape_names, max_splits, outcomes=("complete", "fail", "pruned"), strict=False):
     def body():
         sname = sx.choose(shape_names, "shape")
         root = SHAPES[sname]
@@ -161,7 +175,7 @@ def make_bruteforce_body(shape_names, max_splits, outcomes=("complete", "fail", 
             return float(len(evaluated))
 
         def new_sampler():
-            s = BruteForceSampler(seed=0)
+            s = BruteForceSampler(seed=0, avoid_premature_stop=strict)
             s._rng = Lazy(rng)
             return s
         study = optuna.create_study(sampler=new_sampler(), storage=InMemoryStorage())
@@ -182,6 +196,51 @@ def make_bruteforce_body(shape_names, max_splits, outcomes=("complete", "fail", 
         assert sorted(map(repr, evaluated)) == sorted(map(repr, L)), \
             f"not every combination exactly once: evaluated {sorted(map(repr, evaluated))} vs leaves {sorted(map(repr, L))}"
         assert len(study.get_trials(deepcopy=False)) == len(L), f"did not stop by itself: {len(study.get_trials(deepcopy=False))} trials for {len(L)} leaves"
+        return True
+    return body
+
+
+def make_early_failure_body(shape_names):
+    """one trial of the run fails BEFORE it has drawn all its parameters (an exception between two suggest calls, or before the first):
+    it has evaluated no combination, so every combination must still be evaluated exactly once by the other trials, the sampler must
+    not raise, and the run must stop by itself"""
+    def body():
+        sname = sx.choose(shape_names, "shape")
+        root = SHAPES[sname]
+        L = leaves(root)
+        rng = RNG()
+        evaluated = []
+        which = sx.choose(len(L), "failing_trial_number")
+        after = sx.choose(depth_of(root), "fails_after_n_suggests")
+        early = []
+
+        def objective(trial):
+            if trial.number == which:
+                try:
+                    leaf = run_program(trial, root, fail_after=after)
+                except Boom:
+                    early.append(dict(trial.params))
+                    raise
+            else:
+                leaf = run_program(trial, root)
+            evaluated.append(leaf)
+            return float(len(evaluated))
+        s = BruteForceSampler(seed=0)
+        s._rng = Lazy(rng)
+        study = optuna.create_study(sampler=s, storage=InMemoryStorage())
+        study.optimize(objective, n_trials=len(L) + 3, catch=(Boom,))
+        sx.note("scenario", dict(shape=sname, failing_trial=which, fails_after=after, partial_params=early[:1], leaves=len(L)))
+        if not early:
+            sx.cur().abort()              # the chosen trial reached a leaf before the failure point: not an early failure
+        sx.reach("early-failure")
+        assert len(set(map(repr, evaluated))) == len(evaluated), f"a combination was evaluated twice: {sorted(map(repr, evaluated))}"
+        missing = [lf for lf in L if lf not in evaluated]
+        extra = [lf for lf in evaluated if lf not in L]
+        assert not extra, f"evaluated something that is not a combination of the program: {extra}"
+        below = [lf for lf in missing if all(dict(lf).get(k) == v or (isinstance(v, float) and round(v, 10) == dict(lf).get(k)) for k, v in early[0].items())]
+        assert len(below) == len(missing), f"combinations NOT below the failed prefix {early[0]} were never evaluated: {missing}"
+        assert not missing, f"combinations below the failed trial's partial prefix {early[0]} were never evaluated: {missing}"
+        assert len(study.get_trials(deepcopy=False)) == len(L) + 1, f"did not stop by itself: {len(study.get_trials(deepcopy=False))} trials for {len(L)} combinations + 1 failure"
         return True
     return body
 
@@ -269,6 +328,15 @@ def classify(c):
     return f"{sc.get('shape', sc.get('grid'))}|{sc.get('backend', '')}|{m.split(':')[0][:60]}"
 
 
+def classify_early(c):
+    sc = c.get("notes", {}).get("scenario", {})
+    m = c["message"]
+    kind = ("sampler-raises-param_name-mismatch" if "param_name mismatch" in m else "combinations-below-failed-prefix-never-evaluated" if "combinations below the failed" in m else
+            "does-not-stop" if "did not stop" in m else m[:60])
+    # the run's first trial fails / a later one; after 0 suggests / after >= 1
+    return f"bruteforce:early-failure:{kind}"
+
+
 def obligations(tier):
     q = tier == "quick"
     obs = []
@@ -287,6 +355,14 @@ def obligations(tier):
         obs.append(Obligation("bruteforce-cond-8", make_bruteforce_body(["cond-8"], 1, outcomes=("complete", "fail")), setup, CODE,
                               bounds=dict(shape="cond-8", leaves=7, splits=1, outcomes=2), shard_depth=7, budget_s=3000, classify=classify,
                               require_reach=["finished"], describe="7-leaf conditional space"))
+    obs.append(Obligation("bruteforce-strict", make_bruteforce_body(["flat-4", "deep-4", "single-root-3"] if q else ["flat-4", "deep-4", "single-root-3", "cond-5", "mixed-5"], 1, strict=True), setup, CODE,
+                          bounds=dict(shapes=3 if q else 5, splits=1, outcomes=3, avoid_premature_stop=True),
+                          shard_depth=5, budget_s=1500, classify=classify, require_reach=["finished"],
+                          describe="BruteForceSampler(avoid_premature_stop=True) in a sequential run: same statement"))
+    obs.append(Obligation("bruteforce-early-failure", make_early_failure_body(["flat-4", "deep-4", "cond-5", "mixed-5"] if q else ["flat-4", "deep-4", "cond-5", "mixed-5", "cond-8", "single-root-3"]),
+                          setup, CODE, bounds=dict(shapes=4 if q else 6, early_failures_per_run=1, failing_trial="any", failure_point="before any suggest call that is not the last of its path"),
+                          shard_depth=4, budget_s=1500, classify=classify_early, require_reach=["early-failure"],
+                          describe="a trial fails before it has drawn all its parameters: the other trials still cover every combination exactly once, no sampler error, the run stops"))
     obs.append(Obligation("grid", make_grid_body(["2x2", "nan-inf", "single"] if q else list(GRIDS), ["inmemory", "journal"], 1 if q else 2), setup, CODE,
                           bounds=dict(grids=3 if q else 4, backends=["inmemory", "journal(list backend, real json)"], earlier_trials=[0, 1, 2]),
                           shard_depth=5, budget_s=1500, classify=classify, require_reach=["finished"],
